@@ -44,6 +44,13 @@ def gen_cases(tier, seed):
         cases.append({"id": "FO/%d/%d" % (seed, i), "seed": int(rng.integers(0, 2 ** 31)), "threads": int([4, 8][i % 2]),
                       "ops_per_thread": int(rng.integers(3, 7)), "scheme": "simple", "nrg": int(rng.integers(10, 25)),
                       "yield_p": [0.0, 0.05][i % 2], "kind": "read", "filelike": True})
+    # files of other writers with nested columns (their schema tree has links below the root too), shared between threads that read
+    # through the handle and threads that derive handles from it
+    for fi, fname in enumerate(["nested1.parquet", "map_array.parq", "nested.parq", "test-map-last-row-split.parquet"]):
+        for i in range(3 if tier == "quick" else 30):
+            cases.append({"id": "NS/%s/%d/%d" % (fname, seed, i), "seed": int(rng.integers(0, 2 ** 31)), "threads": int([4, 8, 8][i % 3]),
+                          "ops_per_thread": int(rng.integers(6, 12)), "scheme": "simple", "nrg": 1, "yield_p": [0.05, 0.2, 0.0][i % 3], "kind": "read",
+                          "nested_file": "test-data/" + fname})
     for i in range(30 if tier == "quick" else 300):
         cases.append({"id": "W/%d/%d" % (seed, i), "seed": int(rng.integers(0, 2 ** 31)), "threads": int([2, 4, 8][int(rng.integers(0, 3))]),
                       "yield_p": [0.0, 0.05][i % 2], "kind": "write", "parts": int(rng.integers(3, 9))})
@@ -198,6 +205,8 @@ def run_case(case):
     try:
         if case["kind"] == "write":
             return run_write_case(case, rng, res, counters, y)
+        if case.get("nested_file"):
+            return run_nested_case(case, rng, res, counters, y)
         n = case["nrg"] * 10
         df = pd.DataFrame({"rid": np.arange(n, dtype="int64"), "v0": rng.integers(-50, 50, n).astype("int64"),
                            "v1": np.array(["s%d" % x for x in rng.integers(0, 20, n)], dtype=object), "v2": rng.standard_normal(n),
@@ -309,6 +318,86 @@ def run_case(case):
         C.cleanup(path)
 
 
+def run_nested_case(case, rng, res, counters, y):
+    """Threads reading through one handle on a file with nested columns while others derive handles from it (slice, pick, iteration,
+    head, copy): every result equals what a handle of its own gives."""
+    import os
+    import fastparquet
+    from vf import REPO
+    from vf.props import common as C
+    path = os.path.join(REPO, case["nested_file"])
+    old_si = sys.getswitchinterval()
+    try:
+        pf = fastparquet.ParquetFile(path)
+        nrg = len(pf.row_groups)
+        kinds = ["full", "slice", "iter", "head", "pick", "copy", "full", "slice"]
+        T = case["threads"]
+        plans = []
+        for ti in range(T):
+            plan = []
+            for _ in range(case["ops_per_thread"]):
+                k = kinds[int(rng.integers(0, len(kinds)))]
+                op = {"k": k}
+                if k == "slice":
+                    op["a"], op["b"] = 0, nrg
+                elif k == "pick":
+                    op["i"] = int(rng.integers(0, nrg))
+                elif k == "head":
+                    op["n"] = int(rng.integers(1, 5))
+                plan.append(op)
+            plans.append(plan)
+        baseline = {}
+        for plan in plans:
+            for op in plan:
+                key = repr(sorted(op.items()))
+                if key not in baseline:
+                    baseline[key] = do_op(fastparquet.ParquetFile(path), op)
+        logs = [[] for _ in range(T)]
+        barrier = threading.Barrier(T)
+
+        def worker(ti):
+            try:
+                barrier.wait(timeout=60)
+            except threading.BrokenBarrierError:
+                pass
+            for op in plans[ti]:
+                t0 = time.monotonic_ns()
+                try:
+                    out, err = do_op(pf, op), None
+                except BaseException as e:
+                    out, err = None, C.exc_shape(e)
+                logs[ti].append((op, t0, time.monotonic_ns(), out, err))
+
+        sys.setswitchinterval(1e-6)
+        y.start()
+        threads = [threading.Thread(target=worker, args=(i,), daemon=True) for i in range(T)]
+        for t in threads:
+            t.start()
+        for t in threads:
+            t.join(timeout=300)
+        y.stop()
+        sys.setswitchinterval(old_si)
+        n_overlap = 0
+        allops = [(ti, *e) for ti, log in enumerate(logs) for e in log]
+        for (ti, op, t0, t1, out, err) in allops:
+            inflight = sorted({o2["k"] for (tj, o2, s0, s1, _, _) in allops if tj != ti and s0 < t1 and t0 < s1})
+            n_overlap += bool(inflight)
+            if err is not None:
+                res["failures"].append({"kind": "operation_failed_under_concurrency", "op": op, "inflight": inflight, "threads": T, "file": case["nested_file"], **err})
+            elif out != baseline[repr(sorted(op.items()))]:
+                res["failures"].append({"kind": "result_differs_from_sequential", "op": op, "inflight": inflight, "threads": T, "file": case["nested_file"]})
+        counters["nested_file_runs"] = 1
+        counters["ops_checked"] = len(allops)
+        counters["ops_overlapping"] = n_overlap
+        counters["yield_injections"] = y.hits
+        res["outcome"] = "ok"
+        res["nontrivial"] = n_overlap > 0
+        res["features"] = [T, "nested", case["nested_file"]]
+        return res
+    finally:
+        sys.setswitchinterval(old_si)
+
+
 def run_write_case(case, rng, res, counters, y):
     """Threads call the part-file writer with a shared schema / fmd object: bytes must equal the sequential bytes."""
     import pandas as pd
@@ -380,4 +469,4 @@ def run_write_case(case, rng, res, counters, y):
 
 
 def required(tier):
-    return {"runs": 60, "ops_overlapping": 1000, "ov_slice_vs_read": 100, "part_files_compared": 30, "yield_injections": 1000, "fresh_handle_runs": 30, "statistics_property_ops": 300, "shared_file_object_runs": 15}
+    return {"runs": 60, "ops_overlapping": 1000, "ov_slice_vs_read": 100, "part_files_compared": 30, "yield_injections": 1000, "fresh_handle_runs": 30, "statistics_property_ops": 300, "shared_file_object_runs": 15, "nested_file_runs": 8}
